@@ -177,7 +177,7 @@ pub fn gen_expr(rng: &mut Rng, depth: usize, t: &ValueType, chaos: u64) -> Expre
                 let ot = any_type(rng);
                 ExpressionTree::NullableCompare { operator: if rng.chance(1, 2) { NullableCompareOperator::Equal } else { NullableCompareOperator::NotEqual }, left: bx(gen_expr(rng, d, &ot, chaos)), right: bx(if rng.chance(2, 3) { lit(Value::Null) } else { gen_expr(rng, d, &ot, chaos) }) }
             }
-            4 | 5 => ExpressionTree::BooleanOperation { operator: if rng.chance(1, 2) { BooleanOperator::And } else { BooleanOperator::Or }, left: bx(gen_expr(rng, d, &boolean, chaos)), right: bx(gen_expr(rng, d, &boolean, chaos)) },
+            4 | 5 => ExpressionTree::BooleanOperation { operator: if rng.chance(1, 2) { BooleanOperator::And } else { BooleanOperator::Or }, left: bx(gen_condition(rng, d, chaos)), right: bx(gen_condition(rng, d, chaos)) },
             6 => ExpressionTree::UnaryArithmetic { operator: UnaryArithmeticOperator::Invert, operand: bx(gen_expr(rng, d, &boolean, chaos)) },
             7 | 8 => {
                 let ot = match rng.below(4) { 0 => int.clone(), 1 => text.clone(), 2 => real.clone(), _ => any_type(rng) };
@@ -264,9 +264,24 @@ pub fn gen_expr(rng: &mut Rng, depth: usize, t: &ValueType, chaos: u64) -> Expre
     }
 }
 
+/// a condition (operand of AND / OR, WHEN clause): BOOLEAN-typed; one in eight is deliberately of another type (a plain
+/// INT / TEXT / REAL column or literal, NULL, or an expression of any type) — such a condition has no truth value (D69)
+fn gen_condition(rng: &mut Rng, d: usize, chaos: u64) -> ExpressionTree {
+    if rng.chance(1, 8) {
+        return match rng.below(5) {
+            0 => lit(Value::Null),
+            1 => col(*rng.pick(&["i1", "s1", "f1", "t1", "ai"])),
+            2 => lit(Value::Int(*rng.pick(&[0i64, 1, 5]))),
+            3 => lit(Value::String((*rng.pick(&["true", "a", ""])).to_owned())),
+            _ => { let t = any_type(rng); gen_expr(rng, d, &t, chaos) }
+        };
+    }
+    gen_expr(rng, d, &ValueType::Bool, chaos)
+}
+
 fn gen_case(rng: &mut Rng, d: usize, t: &ValueType, chaos: u64) -> ExpressionTree {
     let n = rng.below(2) + 1;
-    let clauses = (0..n).map(|_| (gen_expr(rng, d, &ValueType::Bool, chaos), gen_expr(rng, d, t, chaos))).collect();
+    let clauses = (0..n).map(|_| (gen_condition(rng, d, chaos), gen_expr(rng, d, t, chaos))).collect();
     ExpressionTree::Case { clauses, else_clause: bx(gen_expr(rng, d, t, chaos)) }
 }
 
@@ -383,12 +398,17 @@ fn spec_root(e: &ExpressionTree, ev: &dyn Fn(&ExpressionTree) -> Ev) -> (Expect,
             }
         }
         ExpressionTree::BooleanOperation { operator, left, right } => {
+            // operands are conditions: BOOLEAN -> its value, NULL -> does not hold, any other type -> no truth value, an
+            // error if that operand is evaluated; the right operand is evaluated exactly when the left does not decide
             let l = match ev(left) { Ev::Ok(l) => l, Ev::Panic(_) => return (Unspecified, ""), _ => return (Error, "operand-error") };
-            let lb = l.bool();
+            let lb = match truth(&l) { Some(b) => b, None => return (Error, "D69:bool-operand-type-mismatch") };
             let short = if *operator == BooleanOperator::And { !lb } else { lb };
             if short { return (Value(sqlgrep::model::Value::Bool(lb)), "bool-two-valued"); }
             match ev(right) {
-                Ev::Ok(r) => (Value(sqlgrep::model::Value::Bool(r.bool())), "bool-two-valued"),
+                Ev::Ok(r) => match truth(&r) {
+                    Some(rb) => (Value(sqlgrep::model::Value::Bool(rb)), "bool-two-valued"),
+                    None => (Error, "D69:bool-operand-type-mismatch"),
+                },
                 Ev::Panic(_) => (Unspecified, ""),
                 _ => (Error, "operand-error"),
             }
@@ -430,7 +450,7 @@ fn spec_root(e: &ExpressionTree, ev: &dyn Fn(&ExpressionTree) -> Ev) -> (Expect,
             for v in values {
                 let c = ExpressionTree::Compare { operator: CompareOperator::NotEqual, left: operand.clone(), right: Box::new(v.clone()) };
                 match ev(&c) {
-                    Ev::Ok(b) => { acc = acc && b.bool(); }
+                    Ev::Ok(sqlgrep::model::Value::Bool(b)) => { acc = acc && b; }
                     _ => return (Unspecified, ""),
                 }
             }
@@ -439,7 +459,12 @@ fn spec_root(e: &ExpressionTree, ev: &dyn Fn(&ExpressionTree) -> Ev) -> (Expect,
         ExpressionTree::Case { clauses, else_clause } => {
             for (c, r) in clauses {
                 match ev(c) {
-                    Ev::Ok(v) => if v.bool() { return match ev(r) { Ev::Ok(v) => (Value(v), "case-first-true"), Ev::Panic(_) => (Unspecified, ""), _ => (Error, "operand-error") }; },
+                    // a WHEN expression is a condition: TRUE takes the branch, FALSE / NULL skip it, any other type is an error
+                    Ev::Ok(v) => match truth(&v) {
+                        Some(true) => return match ev(r) { Ev::Ok(v) => (Value(v), "case-first-true"), Ev::Panic(_) => (Unspecified, ""), _ => (Error, "operand-error") },
+                        Some(false) => {}
+                        None => return (Error, "D69:case-condition-type-mismatch"),
+                    },
                     Ev::Panic(_) => return (Unspecified, ""),
                     _ => return (Error, "operand-error"),
                 }
@@ -511,7 +536,7 @@ pub fn check_expr(run: &mut Run, env: &[(String, Value)], e: &ExpressionTree, ex
         Expect::Error => match &got {
             Ev::Err(_) => {}
             other => {
-                let class = if law.starts_with("D04:") { law.to_owned() } else { format!("{}:{}", law, root) };
+                let class = if law.starts_with("D04:") || law.starts_with("D69:") { law.to_owned() } else { format!("{}:{}", law, root) };
                 run.fail(desc(), &class, format!("no value exists (type mismatch / overflow / zero divisor) but evaluation gave {}", other.wire()))
             }
         },
@@ -560,7 +585,10 @@ fn select_level(run: &mut Run, rng: &mut Rng, n: usize) {
                 names.push(nm);
             }
         }
-        let filter = if rng.chance(1, 2) { format!(" WHERE {}", rng.pick(&["v > 0", "k = 'a'", "w IS NOT NULL", "v + w < 10", "s != 'x' OR v = 1", "NOT (k IS NULL)", "v / w > 0", "r > 0.5", "k IN ('a', 'b')", "v NOT IN (1, 2)"])) } else { String::new() };
+        let filter = if rng.chance(1, 2) { format!(" WHERE {}", rng.pick(&["v > 0", "k = 'a'", "w IS NOT NULL", "v + w < 10", "s != 'x' OR v = 1", "NOT (k IS NULL)", "v / w > 0", "r > 0.5", "k IN ('a', 'b')", "v NOT IN (1, 2)",
+            // conditions that are not BOOLEAN on some rows (D69): an INT / TEXT / REAL expression, an AND / OR with such an operand, a WHEN of
+            // another type; and conditions that are NULL (do not hold, no error)
+            "v + 1", "k", "v", "upper(s)", "r", "v AND w > 0", "w > 0 OR k", "w > 0 AND v", "(CASE WHEN v THEN 1 ELSE 0 END) = 1", "NULL", "NOT NULL", "(CASE WHEN v > 0 THEN k END) = 'a'", "NOT (v > w)"])) } else { String::new() };
         let text = format!("SELECT {} FROM t{}", texts.join(", "), filter);
         let prepared = match prepare(&sch.defs, &text) { Ok(p) => p, Err(e) => { run.count(&format!("stmt-rejected:{}", e.split(':').next().unwrap_or(""))); continue; } };
         let nl = rng.below(10);
@@ -585,8 +613,33 @@ fn select_level(run: &mut Run, rng: &mut Rng, n: usize) {
         // input is the concatenation of the outputs over each line on its own
         let mut concat: Vec<String> = Vec::new();
         let mut first_err: Option<String> = None;
+        // WHERE is a condition: on an admitted line its value is TRUE (the line gives its row), FALSE or NULL (no row, no
+        // error), or of another type — then it has no truth value and the run over that line must report an error, not
+        // silently give no row (D69). The value is the implementation's own evaluation of the WHERE expression (judged
+        // node by node by the expression stream); what is demanded here is what WHERE does with it.
+        let where_of = match &prepared.statement { sqlgrep::Statement::Select(sel) => sel.filter.clone(), _ => None };
+        let table_t = prepared.tables.get("t");
+        let mut where_failed = false;
         for l in &lines {
             let one = run_files(&prepared, &[join_lines(std::slice::from_ref(l))]);
+            if let (Some(f), Some(table), false) = (&where_of, table_t, where_failed) {
+                let row = table.extract(l);
+                if row.any_result() {
+                    let env: Vec<(String, Value)> = table.columns.iter().map(|c| c.name.clone()).zip(row.columns.iter().cloned()).collect();
+                    let verdict = match eval_real(&env, f) {
+                        Ev::Ok(v) => match truth(&v) {
+                            None if !one.status.starts_with("err:") => Some(("D69:where-type-mismatch-not-reported", format!("WHERE is {} (neither BOOLEAN nor NULL) on line {:?}: an error must be reported, the run over that line answers {} {:?}", v, l, one.status, one.records()))),
+                            Some(false) if one.status != "ok" || !one.records().is_empty() => Some(("where-not-holding-gives-row-or-error", format!("WHERE is {} on line {:?}: no row and no error, but the run over that line answers {} {:?}", v, l, one.status, one.records()))),
+                            Some(true) if one.status == "ok" && one.records().len() != 1 => Some(("where-holding-row-missing", format!("WHERE is TRUE on line {:?} but the run over that line gives {:?}", l, one.records()))),
+                            _ => None,
+                        },
+                        Ev::Err(k) if one.status == "ok" => Some(("where-error-not-reported", format!("WHERE has no value ({}) on line {:?} but the run over that line answers ok {:?}", k, l, one.records()))),
+                        _ => None,
+                    };
+                    run.count(&format!("where-oracle:{}", match eval_real(&env, f) { Ev::Ok(v) => match truth(&v) { None => "no-truth-value", Some(true) => "true", Some(false) => if v.is_null() { "null" } else { "false" } }, Ev::Err(_) => "error", Ev::Panic(_) => "panic" }));
+                    if let Some((class, what)) = verdict { run.fail(desc.clone(), class, what); where_failed = true; }
+                }
+            }
             if one.status != "ok" { first_err = Some(one.status.clone()); break; }
             if one.records().len() > 1 { run.fail(desc.clone(), "more-than-one-row-per-line", format!("line {:?} alone yields {:?}", l, one.records())); }
             concat.extend(one.records());
